@@ -9,6 +9,10 @@ import (
 	"context"
 	"encoding/json"
 	"fmt"
+	"github.com/0xPolygon/cdk-contracts-tooling/contracts/pp/l2-sovereign-chain/polygonzkevmbridgev2"
+	"github.com/ethereum/go-ethereum/accounts/abi/bind"
+	"github.com/ethereum/go-ethereum/core/types"
+	"github.com/ethereum/go-ethereum/ethclient/simulated"
 	"math/big"
 	"net/http"
 	"net/http/httptest"
@@ -236,6 +240,25 @@ func (w *baWorld) exec(line string) string {
 				common.HexToHash(string(cp.L1InfoTreeLeaf.GlobalExitRoot)) != crypto.Keccak256Hash(inf.mer[:], inf.rer[:]) {
 				w.fail(fmt.Sprintf("[C12] /claim-proof: the returned L1 info leaf is not leaf %d", leaf))
 			}
+			// the literal reading: would the bridge contract accept these proofs? Its own verifyMerkleProof (real bytecode in the
+			// simulated EVM, a pure function) is asked
+			accepts := func(leafHash common.Hash, proof []common.Hash, index uint32, root common.Hash) bool {
+				var p [32][32]byte
+				for i := 0; i < 32 && i < len(proof); i++ {
+					p[i] = proof[i]
+				}
+				ok, err := baBridgeContract().VerifyMerkleProof(&bind.CallOpts{}, leafHash, p, index, root)
+				must(err)
+				w.r.Evals++
+				return ok
+			}
+			if net == 0 {
+				if !accepts(w.l1deps[dc], toH(cp.ProofLocalExitRoot), dc, mer) {
+					w.fail(fmt.Sprintf("[C12] /claim-proof: the bridge contract's verifyMerkleProof rejects the returned proof of mainnet deposit %d against the mainnet exit root of leaf %d", dc, leaf))
+				}
+			} else if !accepts(w.l2deps[dc], toH(cp.ProofLocalExitRoot), dc, inf.lers[baNet-1]) || !accepts(inf.lers[baNet-1], toH(cp.ProofRollupExitRoot), baNet-1, rer) {
+				w.fail(fmt.Sprintf("[C12] /claim-proof: the bridge contract's verifyMerkleProof rejects the returned proofs of L2 deposit %d under leaf %d", dc, leaf))
+			}
 			if net == 0 {
 				if refCalcRoot(w.l1deps[dc], toH(cp.ProofLocalExitRoot), dc) != mer {
 					w.fail(fmt.Sprintf("[C12] /claim-proof: mainnet deposit %d does not hash with the returned proof to the mainnet exit root of leaf %d", dc, leaf))
@@ -299,7 +322,7 @@ func baGen(r *Run, rng *Rng) {
 			return append(toks, t)
 		}
 		startEmpty := rng.Chance(30) || wi%4 == 0 // worlds whose first info leaves predate any deposit
-		var seeds1, seeds2 []uint64  // a user repeating a bridge produces the same leaf again
+		var seeds1, seeds2 []uint64               // a user repeating a bridge produces the same leaf again
 		bseed := func(pool *[]uint64) uint64 {
 			if len(*pool) > 0 && rng.Chance(30) {
 				return (*pool)[rng.Intn(len(*pool))]
@@ -400,4 +423,20 @@ func baGen(r *Run, rng *Rng) {
 			r.Sample(s[:min(len(s), 500)])
 		}
 	}
+}
+
+// the bridge contract's implementation bytecode in a simulated EVM (its verifyMerkleProof / getLeafValue are pure functions)
+var baContract *polygonzkevmbridgev2.Polygonzkevmbridgev2
+
+func baBridgeContract() *polygonzkevmbridgev2.Polygonzkevmbridgev2 {
+	if baContract == nil {
+		dep := ebKey(9)
+		bal, _ := new(big.Int).SetString("1000000000000000000000000000000", 10)
+		be := simulated.NewBackend(map[common.Address]types.Account{dep.From: {Balance: bal}}, simulated.WithBlockGasLimit(999999999999999999))
+		_, _, c, err := polygonzkevmbridgev2.DeployPolygonzkevmbridgev2(dep, be.Client())
+		must(err)
+		be.Commit()
+		baContract = c
+	}
+	return baContract
 }
